@@ -1507,7 +1507,8 @@ func (e *CoreExtension) filterSlice(value interface{}, args ...interface{}) (int
 	}
 
 	// Default length is to the end
-	length := -1
+	length := 0
+	toEnd := true
 	if len(args) > 1 {
 		// Make sure we can convert the second argument to an integer
 		if args[1] != nil {
@@ -1515,6 +1516,7 @@ func (e *CoreExtension) filterSlice(value interface{}, args ...interface{}) (int
 			if err != nil {
 				return nil, err
 			}
+			toEnd = false
 		}
 	}
 
@@ -1541,7 +1543,9 @@ func (e *CoreExtension) filterSlice(value interface{}, args ...interface{}) (int
 
 		// Calculate end index
 		end := runeCount
-		if length >= 0 {
+		if toEnd {
+			// No length given: everything from start to the end
+		} else if length >= 0 {
 			end = start + length
 			if end > runeCount {
 				end = runeCount
@@ -1573,7 +1577,9 @@ func (e *CoreExtension) filterSlice(value interface{}, args ...interface{}) (int
 
 		// Calculate end index
 		end := count
-		if length >= 0 {
+		if toEnd {
+			// No length given: everything from start to the end
+		} else if length >= 0 {
 			end = start + length
 			if end > count {
 				end = count
@@ -1612,7 +1618,9 @@ func (e *CoreExtension) filterSlice(value interface{}, args ...interface{}) (int
 
 		// Calculate end index
 		end := runeCount
-		if length >= 0 {
+		if toEnd {
+			// No length given: everything from start to the end
+		} else if length >= 0 {
 			end = start + length
 			if end > runeCount {
 				end = runeCount
@@ -1644,7 +1652,9 @@ func (e *CoreExtension) filterSlice(value interface{}, args ...interface{}) (int
 
 		// Calculate end index
 		end := count
-		if length >= 0 {
+		if toEnd {
+			// No length given: everything from start to the end
+		} else if length >= 0 {
 			end = start + length
 			if end > count {
 				end = count
